@@ -124,6 +124,18 @@ func c16Lattice(res *vResult, cfg vCfg, only *c16Case) {
 	for qfi := 0; qfi < 64; qfi++ {
 		run(mk(100, "16.0.0.1", 0x100, "", uint8(qfi), "11.1.1.129"), fmt.Sprint("qfi ", qfi))
 	}
+	// gate status x FAR action: a closed gate turns the entry into a drop whatever the FAR says
+	for gates := 0; gates < 4; gates++ {
+		for _, act := range []uint8{ActionForward, ActionDrop, ActionBuffer | ActionNotify} {
+			r := mk(100, "16.0.0.1", 0x100, "permit out udp from 10.1.0.0/16 80 to assigned", 9, "11.1.1.129")
+			r.CreateQER[0].GateUL, r.CreateQER[0].GateDL = uint8(gates&1), uint8(gates>>1)
+			if act != ActionForward {
+				r.CreateFAR[0] = sFAR{ID: r.CreateFAR[0].ID, Action: act}
+				r.CreateFAR[1] = sFAR{ID: r.CreateFAR[1].ID, Action: act}
+			}
+			run(r, fmt.Sprintf("gates ul=%d dl=%d action %d", gates&1, gates>>1, act))
+		}
+	}
 	for _, prec := range precs {
 		for _, ue := range []string{"255.255.255.255", "0.0.0.1", "16.255.255.255"} {
 			for _, teid := range []uint32{1, 0xFFFFFFFF} {
